@@ -386,32 +386,58 @@ func run(args []string) error {
 		// structural damage
 		sigsN, uxN := nin, nin
 		switch c := r.Intn(100); {
+		// malformed headers (inputs / owners otherwise as generated): the InnerHash field must be the
+		// hash of the body, anything else is refused; Length / Type are rewritten by UpdateHeader
 		case c < 3:
 			txn.InnerHash[r.Intn(32)] ^= 1
 			labels = append(labels, "bad-inner")
-		case c < 6:
+		case c < 8:
+			txn.InnerHash = cipher.SHA256{} // header never computed
+			labels = append(labels, "zero-inner")
+		case c < 11:
+			other := txn
+			other.Out = append([]coin.TransactionOutput{}, txn.Out...)
+			other.Out[0].Coins++
+			txn.InnerHash = other.HashInner() // inner hash of a different transaction
+			labels = append(labels, "other-inner")
+		case c < 14:
+			copy(txn.InnerHash[:], r.Bytes(32))
+			labels = append(labels, "random-inner")
+		case c < 17:
+			txn.Length += uint32(1 + r.Intn(3))
+			if r.Bool() {
+				txn.Length = 0
+			}
+			labels = append(labels, "bad-length")
+		case c < 19:
+			txn.Type = uint8(1 + r.Intn(255))
+			labels = append(labels, "bad-type")
+		case c < 21:
+			txn.Length, txn.Type, txn.InnerHash = 0, 0, cipher.SHA256{} // nothing of the header set
+			labels = append(labels, "no-header")
+		case c < 23:
 			txn.Sigs = nil
 			sigTerm = nil
 			sigsN = 0
 			labels = append(labels, "no-sigs")
-		case c < 9:
+		case c < 26:
 			txn.Sigs = txn.Sigs[:nin-1]
 			sigTerm = sigTerm[:nin-1]
 			sigsN = nin - 1
 			labels = append(labels, "sigs-short")
-		case c < 12:
+		case c < 29:
 			txn.Sigs = append(txn.Sigs, cipher.Sig{})
 			sigTerm = append(sigTerm, "0")
 			sigsN = nin + 1
 			labels = append(labels, "sigs-long")
-		case c < 14:
+		case c < 31:
 			txn.In = nil
 			labels = append(labels, "no-inputs")
-		case c < 17:
+		case c < 33:
 			uxs = uxs[:nin-1]
 			uxN = nin - 1
 			labels = append(labels, "ux-short")
-		case c < 19:
+		case c < 35:
 			uxs = append(uxs, uxs[0])
 			uxN = nin + 1
 			labels = append(labels, "ux-long")
@@ -516,9 +542,12 @@ func run(args []string) error {
 		if txn.In == nil {
 			insT = nil
 		}
-		innerF, innerA := 1, 1
+		innerF, innerA := 1, 1 // ids: 1 = hash of the body, 0 = null hash, 2 = anything else
 		if txn.InnerHash != innerActual {
 			innerF = 2
+			if txn.InnerHash.Null() {
+				innerF = 0
+			}
 		}
 		wT := fmt.Sprintf("(mk_wallet %s %s %s)", w.kind, B(w.enc), zlist(w.entries))
 		tT := fmt.Sprintf("(mk_stx %d %d %s %s [])", innerF, innerA, List(sigTerm), zlist(insT))
